@@ -742,8 +742,11 @@ class Analyzer:
                 return {Path(writes=frozenset([fld]), inplace=frozenset([fld]))}
         if dn in INPLACE_FUNCS and n.args:
             fld = self.field_of(n.args[0])
-            if fld is None and isinstance(n.args[0], ast.Name) and n.args[0].id in self.aliases:
-                fld = self.aliases[n.args[0].id]
+            root = n.args[0]
+            while isinstance(root, (ast.Subscript, ast.Attribute)):     # a view of an alias: x[:, i], x.T, x.flat
+                root = root.value
+            if fld is None and isinstance(root, ast.Name) and root.id in self.aliases:
+                fld = self.aliases[root.id]
             if fld is not None:
                 return {Path(writes=frozenset([fld]), inplace=frozenset([fld]))}
         # self.graph.<method>(..., weights=...) reads link attributes
